@@ -537,6 +537,23 @@ func ruleC06Apply(c *ctx.Ctx, r *core.Reporter) {
 		r.Undecided("translateExpr", "compiler/expressions.go", "not found")
 		return
 	}
+	// shifts by a constant count that reaches the width of the (at most 32-bit) operand: the result is 0,
+	// except for the arithmetic right shift of a signed operand, which fills with the sign bit
+	{
+		ok := false
+		for _, m := range findGoPattern(fd.Body, `if µi >= 32 { µµbody }`) {
+			is := m.Node.(*ast.IfStmt)
+			for _, m2 := range findGoPattern(is.Body, `if µe.Op == token.SHR && !isUnsigned(µb) { µµinner }`) {
+				inner := m2.Node.(*ast.IfStmt)
+				for _, t := range templatesIn(c, inner.Body) {
+					if strings.Contains(squash(t.Text), ">>31") {
+						ok = true
+					}
+				}
+			}
+		}
+		r.Check(ok, "shift:oversized-constant-signed-shr-sign-fills", c.Pos(fd.Pos()), "x >> c with a constant c >= 32 and a signed x is compiled as x >> 31 (-1 for a negative x), not as the literal 0")
+	}
 	ke := newKindEval(c)
 	// locate the BinaryExpr arm's numeric block: if basic, isBasic := ...; isBasic && isNumeric(basic) { ... }
 	var numericIf *ast.IfStmt
@@ -678,19 +695,32 @@ func ruleC06Apply(c *ctx.Ctx, r *core.Reporter) {
 				return false
 			})
 		}
-		// float32 <- float64 uses $fround
-		found := false
-		ast.Inspect(tc.Body, func(n ast.Node) bool {
-			if is, ok := n.(*ast.IfStmt); ok && strings.Contains(exprStr(is.Cond), "types.Float32") && strings.Contains(exprStr(is.Cond), "types.Float64") {
-				for _, ce := range findCalls(ke.info, is.Body, modPath("compiler"), "funcContext.formatExpr") {
-					if t := templateOfCall(c, ce); t != nil && strings.HasPrefix(t.Text, "$fround(") {
-						found = true
+		// conversion to a floating-point type: when the destination is float32, every source that is not
+		// itself a float32 (float64 and all integer kinds) is rounded to single precision with $fround; the
+		// only way around the rounding is the test "the source is already float32"
+		{
+			var arm *ast.CaseClause
+			ast.Inspect(tc.Body, func(n ast.Node) bool {
+				if cc, ok := n.(*ast.CaseClause); ok && arm == nil && len(cc.List) == 1 && hasGoPatternExpr(cc.List[0], `isFloat(µt)`) {
+					arm = cc
+				}
+				return true
+			})
+			if arm == nil {
+				r.Violation("conv:to-float32-rounds", c.Pos(tc.Pos()), "translateConversion has no arm for floating-point destinations")
+			} else {
+				roundsAllButFloat32 := false
+				for _, m := range findGoPattern(&ast.BlockStmt{List: arm.Body}, `if µt.Kind() == types.Float32 && µsrc.Underlying().(*types.Basic).Kind() != types.Float32 { µµbody }`) {
+					is := m.Node.(*ast.IfStmt)
+					for _, ce := range findCalls(ke.info, is.Body, modPath("compiler"), "funcContext.formatExpr") {
+						if t := templateOfCall(c, ce); t != nil && strings.HasPrefix(t.Text, "$fround(") {
+							roundsAllButFloat32 = true
+						}
 					}
 				}
+				r.Check(roundsAllButFloat32, "conv:to-float32-rounds", c.Pos(arm.Pos()), "a conversion to float32 goes through $fround unless the source already is a float32 (an integer above 2^24 is not representable either)")
 			}
-			return true
-		})
-		r.Check(found, "conv:float64->float32", c.Pos(tc.Pos()), "float64 to float32 conversion rounds with $fround")
+		}
 	}
 }
 
@@ -1057,4 +1087,10 @@ func firstParamName(fd *ast.FuncDecl) string {
 		return ""
 	}
 	return fd.Type.Params.List[0].Names[0].Name
+}
+
+// hasGoPatternExpr matches a single expression against an expression pattern.
+func hasGoPatternExpr(e ast.Expr, pat string) bool {
+	p := compileGoPattern(pat)
+	return p.expr != nil && matchExprPat(p.expr, e, patEnv{})
 }
